@@ -243,6 +243,11 @@ def check(case, stats=None):
                 want = sum(1 for v in flat_dense if v > 0)
                 if int(got) != want:
                     return [Failure("C11:mask-sum", {"streamed": int(got), "expected": want})]
+                # a column of the streamed interval set asked for by name, evaluated: that column of all entries
+                for fname, want_col in (("start", [a for _, a, _ in rows]), ("stop", [b for _, _, b in rows])):
+                    got_col = np.asarray(bnp.compute(genome.get_intervals(stream()).get_data_field(fname))).tolist()
+                    if got_col != want_col:
+                        return [Failure("C11:column-by-name", {"field": fname, "streamed": got_col[:20], "expected": want_col[:20]})]
             elif comp == "pileup-sum":
                 got = bnp.compute(gi.get_pileup().sum())
                 if int(got) != sum(flat_dense):
